@@ -20,6 +20,7 @@ MODULES = {
     "C13": ["contracts.externals", "contracts.types_named", "contracts.application", "contracts.app_callbacks"],
     "C12": ["contracts.externals", "contracts.types_named", "contracts.application", "contracts.ezsp", "contracts.app_send"],
     "C20": ["contracts.externals", "contracts.thread"],
+    "C02": ["contracts.externals", "contracts.ash", "contracts.ash_wire", "contracts.ash_rx"],
     "C03": ["contracts.externals", "contracts.ash", "contracts.ash_wire"],
 }
 
